@@ -102,15 +102,23 @@ def lean_scan_forbidden():
 
 
 def prop_theorems(pid):
-    """names and statements of the theorems in Props/<pid>.lean"""
+    """(fully qualified name, statement) of the theorems in Props/<pid>.lean"""
     path = os.path.join(LEAN, "HecsModel", "Props", pid + ".lean")
     if not os.path.exists(path):
         return []
     src = strip_comments(open(path).read())
     res = []
-    for m in re.finditer(r"^theorem\s+([A-Za-z0-9_.'!?]+)([\s\S]*?):=", src, re.M):
-        stmt = " ".join(m.group(2).split())
-        res.append((m.group(1), stmt[:400]))
+    stack = []
+    pos = 0
+    for m in re.finditer(r"^(namespace\s+(\S+)|end\s+(\S+)|theorem\s+([A-Za-z0-9_.'!?]+)([\s\S]*?):=)", src, re.M):
+        if m.group(2):
+            stack.append(m.group(2))
+        elif m.group(3):
+            if stack and stack[-1] == m.group(3):
+                stack.pop()
+        elif m.group(4):
+            stmt = " ".join(m.group(5).split())
+            res.append((".".join(stack + [m.group(4)]), stmt[:400]))
     return res
 
 
@@ -121,15 +129,15 @@ def lean_audit(pid, names):
     with open(f, "w") as fh:
         fh.write(f"import HecsModel.Props.{pid}\n")
         for n in names:
-            fh.write(f"#print axioms Hecs.Props.{pid}.{n}\n")
+            fh.write(f"#print axioms {n}\n")
     rc, out = run(["lake", "env", "lean", f], cwd=LEAN, timeout=1800)
     res = {}
     # messages may wrap over several lines
     text = out.replace("\n  ", " ")
     for m in re.finditer(r"'([^']+)' depends on axioms: \[([^\]]*)\]", text):
-        res[m.group(1).split(".")[-1]] = [a.strip() for a in m.group(2).split(",") if a.strip()]
+        res[m.group(1)] = [a.strip() for a in m.group(2).split(",") if a.strip()]
     for m in re.finditer(r"'([^']+)' does not depend on any axioms", text):
-        res[m.group(1).split(".")[-1]] = []
+        res[m.group(1)] = []
     return rc, res, out
 
 
